@@ -322,6 +322,22 @@ pub fn probe_query(sim: &mut Sim) {
             sim.cov.hit("C16", h.finish(), true);
             match (&got, &want) {
                 (Ok(g), Some(w)) => {
+                    // an order with nothing remaining is a completely filled / rejected order:
+                    // queries must fail for it
+                    let nothing_left = if side == 'a' {
+                        book::decode_ask_value(g).map(|a| a.size == 0).unwrap_or(false)
+                    } else {
+                        book::decode_bid_value(g).map(|b| b.unfilled() == 0).unwrap_or(false)
+                    };
+                    if nothing_left {
+                        sim.flag(
+                            &["C16"],
+                            "P-query.returned_completed_order",
+                            "query",
+                            class,
+                            format!("query {} returned an order with nothing remaining: {}", q, g),
+                        );
+                    }
                     if g != w {
                         sim.flag(
                             &["C16"],
